@@ -186,8 +186,7 @@ theorem C09_release_when_done (s0 s : Sys) (hw : WFConfig s0)
     {parts minPer : Nat} {split : Option (List (Oid × Nat × Nat))} (ha : s0.alg = .batch parts minPer split)
     (h : Reach s0 s) (pid : Nat) (hen : s.enabled pid) (orc : Oracle) (p : Proc) (hp : s.proc? pid = some p)
     (o : Oid) (sc pa : List (Tid × Mid)) (po : List Tid) (hk : p.k = .allocTasks o sc pa po false)
-    (hdone : ∀ pl, s.plan? o = some pl → ∀ t ∈ pl.tasks, ∀ r, s.task? t = some r → r.status = .finished)
-    (hrec : ∀ pl, s.plan? o = some pl → ∀ t ∈ pl.tasks, (s.task? t).isSome = true)
+    (hdone : ∀ pl, s.plan? o = some pl → ∀ t ∈ pl.tasks, ∃ r, s.task? t = some r ∧ r.status = .finished)
     (hok : ∀ e, (s.resume pid orc).2 ≠ .raised e) :
     (¬ ∃ l, dictGet (s.resume pid orc).1.cl.idle o = some l) ∧
     (∀ m ∈ s.cl.idleOf (some o), m ∈ (s.resume pid orc).1.cl.available) ∧
@@ -199,12 +198,8 @@ theorem C09_release_when_done (s0 s : Sys) (hw : WFConfig s0)
   | none => rw [hpl] at ht; simp at ht
   | some pl =>
     rw [hpl] at ht
-    rw [tstat_eq]
-    cases hr : s.task? t with
-    | none =>
-      have := hrec pl hpl t ht
-      rw [hr] at this; simp at this
-    | some r => exact hdone pl hpl t ht r hr
+    obtain ⟨r, hr, hst⟩ := hdone pl hpl t ht
+    rw [tstat_eq, hr]; exact hst
 
 /-- (g) … and at `is_finished()` no reservation exists (`C04_no_reservation_at_finish`). -/
 theorem C09_no_reservation_at_finish (s0 s : Sys) (hw : WFConfig s0)
